@@ -25,7 +25,8 @@ static int stack_write_compact(struct reftable_stack *st,
 			       struct reftable_writer *wr, int first, int last,
 			       struct reftable_log_expiry_config *config);
 static int stack_check_addition(struct reftable_stack *st,
-				const char *new_tab_name);
+				const char *new_tab_name, char **earlier,
+				int earlier_len);
 static void reftable_addition_close(struct reftable_addition *add);
 static int reftable_stack_reload_maybe_reuse(struct reftable_stack *st,
 					     int reuse_open);
@@ -676,7 +677,8 @@ int reftable_addition_add(struct reftable_addition *add,
 		goto done;
 	}
 
-	err = stack_check_addition(add->stack, temp_tab_file_name.buf);
+	err = stack_check_addition(add->stack, temp_tab_file_name.buf,
+				   add->new_tables, add->new_tables_len);
 	if (err < 0)
 		goto done;
 
@@ -705,6 +707,8 @@ int reftable_addition_add(struct reftable_addition *add,
 						   (add->new_tables_len + 1));
 	add->new_tables[add->new_tables_len] = strbuf_detach(&next_name, NULL);
 	add->new_tables_len++;
+	/* The next table of this transaction goes on top of this one. */
+	add->next_update_index = wr->max_update_index + 1;
 done:
 	if (tab_fd > 0) {
 		close(tab_fd);
@@ -1239,12 +1243,17 @@ done:
 }
 
 static int stack_check_addition(struct reftable_stack *st,
-				const char *new_tab_name)
+				const char *new_tab_name, char **earlier,
+				int earlier_len)
 {
 	int err = 0;
 	struct reftable_block_source src = { NULL };
 	struct reftable_reader *rd = NULL;
 	struct reftable_table tab = { NULL };
+	/* the stack plus the tables added earlier in the same transaction */
+	struct reftable_merged_table *view = NULL;
+	struct reftable_reader **earlier_rd = NULL;
+	int earlier_rd_len = 0;
 	struct reftable_ref_record *refs = NULL;
 	struct reftable_iterator it = { NULL };
 	int cap = 0;
@@ -1287,7 +1296,47 @@ static int stack_check_addition(struct reftable_stack *st,
 		refs[len++] = ref;
 	}
 
-	reftable_table_from_merged_table(&tab, reftable_stack_merged_table(st));
+	if (earlier_len > 0) {
+		int stack_len = st->merged->stack_len;
+		struct reftable_table *tabs = reftable_calloc(
+			sizeof(struct reftable_table) *
+			(stack_len + earlier_len));
+		earlier_rd = reftable_calloc(sizeof(*earlier_rd) * earlier_len);
+		for (i = 0; i < stack_len; i++)
+			reftable_table_from_reader(&tabs[i], st->readers[i]);
+		for (i = 0; i < earlier_len; i++) {
+			struct reftable_block_source esrc = { NULL };
+			struct strbuf path = STRBUF_INIT;
+			stack_filename(&path, st, earlier[i]);
+			err = reftable_block_source_from_file(&esrc, path.buf);
+			strbuf_release(&path);
+			if (err == 0)
+				err = reftable_new_reader(
+					&earlier_rd[earlier_rd_len], &esrc,
+					earlier[i]);
+			if (err < 0) {
+				reftable_free(tabs);
+				i = 0;
+				goto done;
+			}
+			reftable_table_from_reader(&tabs[stack_len + i],
+						   earlier_rd[earlier_rd_len]);
+			earlier_rd_len++;
+		}
+		err = reftable_new_merged_table(&view, tabs,
+						stack_len + earlier_len,
+						st->config.hash_id);
+		if (err < 0) {
+			reftable_free(tabs);
+			i = 0;
+			goto done;
+		}
+		view->suppress_deletions = 1;
+		reftable_table_from_merged_table(&tab, view);
+	} else {
+		reftable_table_from_merged_table(
+			&tab, reftable_stack_merged_table(st));
+	}
 
 	err = validate_ref_record_addition(tab, refs, len);
 
@@ -1299,6 +1348,10 @@ done:
 	free(refs);
 	reftable_iterator_destroy(&it);
 	reftable_reader_free(rd);
+	reftable_merged_table_free(view);
+	for (i = 0; i < earlier_rd_len; i++)
+		reftable_reader_free(earlier_rd[i]);
+	reftable_free(earlier_rd);
 	return err;
 }
 
